@@ -61,7 +61,7 @@ def owner_field(e):
             e = e[1]
         else:
             break
-    for fe in reversed(chain):
+    for fe in chain:  # innermost hash-typed owner first (norm_hash.blockhash1 -> FuzzyHashData.blockhash1)
         if len(fe) > 3 and fe[3] in HASH_TYPES:
             return strip_ref(fe[1]), fe[3], fe[2]
     return None
@@ -92,7 +92,7 @@ def census(f, sy=None):
         lhs = s["lhs"]
         fl = [e for e in lhs["p"] if isinstance(e, dict) and "f" in e and e.get("of") in HASH_TYPES]
         if fl:
-            e = fl[0]
+            e = fl[-1]
             # root: local + projections before the field
             k = lhs["p"].index(e)
             rootpl = {"l": lhs["l"], "p": lhs["p"][:k]}
@@ -180,3 +180,107 @@ def covers_whole(ws, n_known=None):
                     return True
                 progressed = True
     return False
+
+
+# ---- SA-FIELDS: destination completely defined, like-indexed copies ------------------------------------------
+
+RF = "SA-FIELDS"
+FIELDS_OF = {
+    "internals::hash::FuzzyHashData": ("blockhash1", "blockhash2", "len_blockhash1", "len_blockhash2", "log_blocksize"),
+    "internals::hash_dual::FuzzyHashDualData": ("rle_block1", "rle_block2", "norm_hash"),
+    "internals::compare::FuzzyHashCompareTarget": ("blockhash1", "blockhash2", "len_blockhash1", "len_blockhash2", "log_blocksize"),
+}
+
+
+# reviewed partial writers: (function suffix, fields deliberately not written) -> (reason, structural condition)
+PARTIAL_WRITERS = {
+    ("compare::FuzzyHashCompareTarget::init_from_partial", ("blockhash1", "blockhash2")):
+        ("the mask arrays are accumulated through the position-array views; clear-before-accumulate is decided by SA-TYPESTATE at every call site; requires: not exported", lambda f: not f.exported),
+    ("hash_dual::FuzzyHashDualData::<S1, S2, C1, C2>::normalize_in_place", ("norm_hash",)):
+        ("in-place transformer: dropping the reverse-normalisation data leaves the normalised part as is; both RLE blocks are reset together", lambda f: True),
+}
+
+
+def doc_fields(ctx):
+    ctx.rule(RF, "write census over the hash types: a function that writes fields of a `&mut` hash-typed destination defines every field on every normal return; a value copied from a field of another hash object goes to the like-named (like-indexed) field")
+
+
+def like_index(ctx, prog):
+    """copies between hash objects go from field F to field F (blockhash1->blockhash1, len2->len2, ...)"""
+    doc_fields(ctx)
+    n = 0
+    for f in prog.fns:
+        for w in census(f):
+            if w.kind == "handoff" or w.src is None or not isinstance(w.src, tuple):
+                continue
+            src = w.src
+            if w.kind in ("copy_from_slice", "clone_from_slice"):
+                src, _ = slice_expr(src)
+            of = owner_field(src)
+            if of is None:
+                continue
+            # only plain copies (the source expression *is* a field of a hash object)
+            s = strip(src)
+            while s[0] in ("ref", "deref", "cast"):
+                s = s[1]
+            if s[0] == "call" and "clone" in s[1] and s[2]:
+                s = strip(s[2][0])
+                while s[0] in ("ref", "deref", "cast"):
+                    s = s[1]
+            if s[0] != "field":
+                continue
+            n += 1
+            ctx.visit(f)
+            ctx.ob(RF, "%s: %s <- source field of the same name" % (f.short, w.field), of[2] == w.field,
+                   "%s.%s = %s" % (w.root, w.field, show(w.src)), f.loc(w.sp))
+    ctx.floor(RF, n, 30, "field-to-field copies between hash objects")
+
+
+def dest_complete(ctx, prog):
+    """every function writing through a `&mut` hash-typed parameter defines all of its fields on every normal return"""
+    doc_fields(ctx)
+    n = 0
+    for f in prog.fns:
+        ws = [w for w in census(f) if w.root.startswith("param:") and w.owner in FIELDS_OF]
+        if not ws:
+            continue
+        sy = Sym(f)
+        for root in sorted({(w.root, w.owner) for w in ws}):
+            rw = [w for w in ws if (w.root, w.owner) == root]
+            # pure hand-off functions (normalize_in_place_internal) transform in place: not a (re)definition
+            if all(w.kind == "handoff" for w in rw):
+                continue
+            # in-place transformers that only touch a strict subset deliberately (dual normalize_in_place clears RLE only;
+            # compare target partial initialiser) are handled by their own rules when they are not exported `into`/`init` forms
+            n += 1
+            ctx.visit(f)
+            need = FIELDS_OF[root[1]]
+            # normal returns: return blocks not dominated by an Err construction
+            errs = set()
+            for i, j, s in f.stmts():
+                if s["s"] == "assign" and s["lhs"]["l"] == 0 and s["rv"]["r"] == "agg" and s["rv"]["kind"].get("variant") == "Err":
+                    errs.add(i)
+            oks = [i for i, j, s in f.stmts() if s["s"] == "assign" and s["lhs"]["l"] == 0 and not s["lhs"]["p"] and i not in errs]
+            oks = oks or f.return_blocks()
+            missing = []
+            for fld in need:
+                fw = [w for w in rw if w.field == fld and (w.kind != "handoff" or not w.callee.endswith("index_mut"))]
+                dom = [w for w in fw if all(f.dominates(w.blk, o) for o in oks)]
+                if not dom:
+                    missing.append(fld)
+                    continue
+                if fld.startswith(("blockhash", "rle_block")):
+                    hand = [w for w in dom if w.kind == "handoff"]
+                    if not hand and not covers_whole(dom, 64):
+                        missing.append(fld + " (partially)")
+            exc = None
+            for (suffix, flds), (reason, cond) in PARTIAL_WRITERS.items():
+                if f.path.endswith(suffix) and tuple(missing) == flds:
+                    exc = (reason, cond(f))
+            if missing and exc:
+                ctx.ob(RF, "%s: partial writer of `%s` is a reviewed exception" % (f.short, root[0][6:]), exc[1],
+                       "%s (fields left: %s)" % (exc[0], ", ".join(missing)), f.loc())
+                continue
+            ctx.ob(RF, "%s: defines every field of its `%s` destination on every normal return" % (f.short, root[0][6:]), not missing,
+                   "all of %s written" % (", ".join(need)) if not missing else "not (wholly) written: %s" % ", ".join(missing), f.loc())
+    ctx.floor(RF, n, 6, "functions writing through a &mut hash-typed parameter")
